@@ -11,6 +11,7 @@ import (
 	"verif/vk"
 
 	"github.com/lianxiangcloud/linkchain/libs/common"
+	"github.com/lianxiangcloud/linkchain/libs/crypto"
 	"github.com/lianxiangcloud/linkchain/state"
 	"github.com/lianxiangcloud/linkchain/types"
 	"github.com/lianxiangcloud/linkchain/vm/evm"
@@ -185,6 +186,8 @@ type delta struct {
 	refund uint64
 }
 
+var emptyCodeHash = crypto.Keccak256Hash(nil)
+
 func trimZ(b []byte) string { return hx(bytes.TrimLeft(b, "\x00")) }
 
 func takeDelta(st, ref *state.StateDB) *delta {
@@ -201,8 +204,27 @@ func takeDelta(st, ref *state.StateDB) *delta {
 			add(o.Addr, "existence", "yes", "no")
 			continue
 		case r == nil:
-			add(o.Addr, "existence", "no", fmt.Sprintf("yes(balance=%v nonce=%d code=%s tokens={%s})", o.Balance, o.Nonce, hx(o.CodeHash[:3]), dumpTokens(o.Tokens)))
-			// storage of a new account
+			// a new account: compare with the empty account
+			add(o.Addr, "existence", "no", "yes")
+			if o.Balance.Sign() != 0 {
+				add(o.Addr, "balance", "0", o.Balance.String())
+			}
+			if o.Nonce != 0 {
+				add(o.Addr, "nonce", "0", fmt.Sprint(o.Nonce))
+			}
+			if o.Credits != 1 { // createObject starts at Credits 1
+				add(o.Addr, "credits", "1", fmt.Sprint(o.Credits))
+			}
+			if !bytes.Equal(o.CodeHash, emptyCodeHash[:]) {
+				add(o.Addr, "code", "", hx(o.CodeHash[:3]))
+			}
+			if at := dumpTokens(o.Tokens); at != "" {
+				f := "token-balance"
+				if stripZero(at) == "" {
+					f = "token-zero-entry"
+				}
+				add(o.Addr, f, "{}", "{"+at+"}")
+			}
 			for k, v := range o.Dirty {
 				if len(bytes.TrimLeft(v, "\x00")) > 0 {
 					add(o.Addr, "storage/"+trimZ(k[:]), "", trimZ(v))
